@@ -149,6 +149,12 @@ func Prepare(t *testing.T, tag string, o Options) (*pipeline.Session, []*Built) 
 				if o.OnSkip != nil {
 					o.OnSkip(d, out)
 				}
+				if i >= len(designs)-len(o.Extra) && ReplayDir() == "" {
+					// every fixed design builds on the unchanged tree; one that
+					// stops building takes the shapes it was written for out of
+					// this check: no verdict rather than a silent pass
+					t.Errorf("INCONCLUSIVE: the fixed design %s does not build any more (%s: %s): that is C01's subject, this check has no verdict on the shapes it carries", d.API.Name, out.Failure, firstLine(out.Sig))
+				}
 				return
 			}
 			bin, diag, err := sess.BuildHarness(out.Run, o.Race)
